@@ -15,7 +15,7 @@ CHECKS = {
 NA = {
  "C03": "std Path component iteration / join / str::contains on 2-3 symbolic bytes did not leave symbolic execution in 16 min at 10 GB (probed); effect side needs sockets and the real fs",
  "C05": "listener loop is blocking FFI (recv_from), fatal paths are allocator aborts and thread spawning; not encodable in Kani (no FFI, malloc never fails, no threads)",
- "C06": "decision table inside listen/handle_* reads the real fs (Path::exists/metadata) and writes UdpSocket datagrams / spawns threads; cannot be executed symbolically here",
+ "C06": "decision table inside listen/handle_*: attempted with a Server around UdpSocket::from_raw_fd and all std networking calls stubbed, but kani-compiler 0.68 ICEs (intrinsics.rs:243, catch_unwind) as soon as handle_wrq/handle_rrq is reachable because they drop the JoinHandle returned by Worker::receive/send; the handlers cannot be encoded with the installed tool",
  "C12": "thread scheduling, mpsc channels and kernel demultiplexing by connect(): Kani does not model concurrency",
  "C14": "two real processes exchanging datagrams over loopback; Client::upload/download is bind/send/recv on real sockets",
 }
